@@ -644,17 +644,24 @@ def crlf_norm(s):
     return re.sub(r"\r+\n", "\n", s)
 
 
-def equal(got, want, font=None, **kw):
-    """ufoio.equal with the two adjustments the property texts call for: the feature text is compared
-    in line-ending normal form (one pass of CRLF->LF is not idempotent on CR CR LF), contours
-    without points are ignored (C11).  -> (differences, observations)"""
-    g2, n1 = strip_empty_contours(got)
-    w2, n2 = strip_empty_contours(want)
+def equal(got, want, font=None, strip="want", **kw):
+    """ufoio.equal with the adjustments the property texts call for: the feature text is compared in
+    line-ending normal form (one pass of CRLF->LF is not idempotent on CR CR LF); contours without
+    points are dropped from the INPUT side only (C11: 'empty contours are dropped'; since e956b60
+    the writer skips them and the parser never returns them, so a loaded value with an empty contour
+    is a difference).  strip: "want" (default), "both" (tooling self-checks), "none" (C04: both sides
+    are loaded values).  -> (differences, observations)"""
+    n1 = n2 = 0
+    g2, w2 = got, want
+    if strip == "both":
+        g2, n1 = strip_empty_contours(got)
+    if strip in ("want", "both"):
+        w2, n2 = strip_empty_contours(want)
     d = ufoio.equal(g2, w2, **kw)
     out = []
     obs = {}
-    if n1 != n2:
-        obs["empty_contours_dropped"] = abs(n1 - n2)
+    if n2:
+        obs["empty_contours_in_input"] = n2
     for path, x, y in d:
         if path == "features" and crlf_norm(x or "") == crlf_norm(y or ""):
             obs["features_multi_cr"] = 1
